@@ -1414,7 +1414,7 @@ def run_case(case, acc):
         with vk:
             obs = observe(ps, case)
             reordered = []
-            if case["dom"] == "bat" and len(case["bats"]) >= 2:
+            if (case["dom"] == "bat" and len(case["bats"]) >= 2) or (case["dom"] != "bat" and harness.chash(case)[-2] in "0123"):
                 # a directory listing has no order: the same tree listed differently is the same hardware
                 for order in (lambda p, names: sorted(names), lambda p, names: sorted(names, reverse=True)):
                     vk.list_order = order
@@ -1423,13 +1423,21 @@ def run_case(case, acc):
     finally:
         _SYSCONF["fail"] = False
     viols = evaluate(case, obs, ps, acc)
+    def unordered(r):
+        # sensors of one chip come back as a list whose order is not promised; per-CPU lists are indexed by CPU number
+        kind, v = r
+        if kind != "ok":
+            return (kind, type(v).__name__)
+        if isinstance(v, dict):
+            return (kind, repr({k: sorted(map(repr, x)) if isinstance(x, list) else repr(x) for k, x in sorted(v.items())}))
+        return (kind, repr(v))
     for o2 in reordered:
-        acc.count("battery_listing_orders_compared")
-        a, b = obs["battery"], o2["battery"]
-        if (a[0], repr(a[1])) != (b[0], repr(b[1])):
-            viols.append(("battery_depends_on_listing_order",
-                          f"sensors_battery() -> {a[1]!r}, and {b[1]!r} when /sys/class/power_supply lists the same entries "
-                          f"in another order"))
+        acc.count("listing_orders_compared")
+        bad = [k for k in obs if k in o2 and unordered(obs[k]) != unordered(o2[k])]
+        if bad:
+            k = bad[0]
+            viols.append(("battery_depends_on_listing_order" if k == "battery" else f"{k}_depends_on_listing_order",
+                          f"{k}: {obs[k][1]!r}, and {o2[k][1]!r} when the same sysfs directories list the same entries in another order"))
             break
     viols = [(m, d + " | case=" + short(case)) for m, d in viols]
     acc.count("layouts:" + case["dom"])
